@@ -107,6 +107,107 @@ Proof.
   rewrite slice_both_2. reflexivity.
 Qed.
 
+(* ... with b blank lines between the two *)
+Lemma split_on_blanks sep b x : split_on sep (repeat sep b ++ x) = repeat [] b ++ split_on sep x.
+Proof. induction b as [|b IH]; [reflexivity|]. cbn [repeat app split_on]. rewrite N.eqb_refl, IH. reflexivity. Qed.
+
+Lemma join_on_blanks sep b r : r <> [] -> join_on sep (repeat [] b ++ r) = repeat sep b ++ join_on sep r.
+Proof.
+  intros Hr. induction b as [|b IH]; [reflexivity|]. cbn [repeat app]. 
+  destruct (repeat [] b ++ r) as [|y ys] eqn:E.
+  - apply app_eq_nil in E as [_ E]. contradiction.
+  - cbn [join_on app]. cbn [join_on] in IH. rewrite IH. reflexivity.
+Qed.
+
+Lemma map_repeat_nil (f : str -> str) b : f [] = [] -> map f (repeat [] b) = repeat [] b.
+Proof. intros H. induction b as [|b IH]; [reflexivity|]. cbn [repeat map]. rewrite H, IH. reflexivity. Qed.
+
+Lemma process_blanks st b r : process st (repeat [] b ++ r) = match process st r with Some (out, st') => Some (repeat [] b ++ out, st') | None => None end.
+Proof.
+  induction b as [|b IH]; cbn [repeat app].
+  - destruct (process st r) as [[out st']|]; reflexivity.
+  - cbn [process span_sp]. rewrite IH. destruct (process st r) as [[out st']|]; reflexivity.
+Qed.
+
+Lemma pre_parse_two_lines_b size l1 l2 k b :
+  Forall (fun c => c <> TAB) l1 -> Forall (fun c => c <> NL) l1 -> edge_ok l1 ->
+  Forall (fun c => c <> TAB) l2 -> Forall (fun c => c <> NL) l2 -> edge_ok l2 -> (1 <= k)%nat ->
+  pre_parse size (l1 ++ NL :: repeat NL b ++ repeat SP k ++ l2 ++ [NL])
+  = Some (l1 ++ NL :: repeat NL b ++ INDENT_C :: NL :: l2 ++ NL :: DEDENT_C :: [NL]).
+Proof.
+  intros Ht1 Hn1 He1 Ht2 Hn2 He2 Hk.
+  destruct l1 as [|a0 r1]; [destruct He1|]. cbn [edge_ok] in He1. destruct He1 as [Hf1 Hl1]. remember (a0 :: r1) as l1 eqn:E1.
+  destruct l2 as [|b0 r2]; [destruct He2|]. cbn [edge_ok] in He2. destruct He2 as [Hf2 Hl2]. remember (b0 :: r2) as l2 eqn:E2.
+  assert (Hne1 : l1 <> []) by (rewrite E1; discriminate). assert (Hne2 : l2 <> []) by (rewrite E2; discriminate).
+  assert (Hsp_ws : forall c, py_isspace c = false -> is_sp c = false).
+  { intros c Hc. unfold is_sp. destruct (N.eqb_spec c SP) as [E|]; [|reflexivity]. rewrite E in Hc. discriminate. }
+  set (A := l1 ++ NL :: repeat NL b ++ repeat SP k).
+  assert (EA : forall x, l1 ++ NL :: repeat NL b ++ repeat SP k ++ x = A ++ x).
+  { intros x. subst A. rewrite <- !app_assoc. cbn [app]. rewrite <- !app_assoc. reflexivity. }
+  unfold pre_parse.
+  assert (Ex : expand_tabs size (l1 ++ NL :: repeat NL b ++ repeat SP k ++ l2 ++ [NL]) = l1 ++ NL :: repeat NL b ++ repeat SP k ++ l2 ++ [NL]).
+  { apply expand_tabs_none. apply Forall_app. split; [exact Ht1|]. constructor; [unfold NL, TAB; discriminate|].
+    apply Forall_app. split; [apply forall_repeat; unfold NL, TAB; discriminate|].
+    apply Forall_app. split; [apply forall_repeat; unfold SP, TAB; discriminate|]. apply Forall_app. split; [exact Ht2|].
+    constructor; [unfold NL, TAB; discriminate|constructor]. }
+  rewrite Ex.
+  assert (Es : strip py_isspace (l1 ++ NL :: repeat NL b ++ repeat SP k ++ l2 ++ [NL]) = A ++ l2).
+  { unfold strip. replace (lstrip py_isspace (l1 ++ NL :: repeat NL b ++ repeat SP k ++ l2 ++ [NL])) with (l1 ++ NL :: repeat NL b ++ repeat SP k ++ l2 ++ [NL])
+      by (rewrite E1; cbn [app lstrip]; rewrite Hf1; reflexivity).
+    rewrite EA. rewrite app_assoc. rewrite rstrip_app. change (forallb py_isspace [NL]) with true. cbv iota.
+    apply rstrip_keep_app; assumption. }
+  rewrite Es.
+  assert (Hnl_sp : Forall (fun c => c <> NL) (repeat SP k ++ l2)) by (apply Forall_app; split; [apply forall_repeat; unfold SP, NL; discriminate|exact Hn2]).
+  assert (Est : strip_trailing (A ++ l2) = A ++ l2).
+  { unfold strip_trailing. rewrite <- EA. rewrite (split_on_app_line NL l1 _ Hn1). rewrite split_on_blanks.
+    rewrite (split_on_none NL (repeat SP k ++ l2)) by exact Hnl_sp.
+    cbn [map]. rewrite map_app, (map_repeat_nil (rstrip is_sp)) by reflexivity. cbn [map].
+    rewrite (rstrip_keep is_sp l1 Hne1 (Hsp_ws _ Hl1)). rewrite (rstrip_keep_app is_sp _ l2 Hne2 (Hsp_ws _ Hl2)).
+    assert (J : join_on NL (l1 :: repeat [] b ++ [repeat SP k ++ l2]) = l1 ++ NL :: join_on NL (repeat [] b ++ [repeat SP k ++ l2])).
+    { destruct (repeat [] b ++ [repeat SP k ++ l2]) eqn:E; [apply app_eq_nil in E as [_ E]; discriminate|reflexivity]. }
+    etransitivity; [exact J|]. f_equal. f_equal. apply (join_on_blanks NL b [repeat SP k ++ l2]). discriminate. }
+  rewrite Est.
+  assert (Hnl2 : last l2 0 <> NL) by (intros E; rewrite E in Hl2; discriminate).
+  assert (Een : ensure_nl (A ++ l2) = A ++ l2 ++ [NL]).
+  { unfold ensure_nl.
+    assert (Hl : last (A ++ l2) 0 = last l2 0) by (apply last_app_ne; exact Hne2).
+    assert (Hne : A ++ l2 <> []) by (intros E; apply app_eq_nil in E as [_ E]; contradiction).
+    rewrite (ends_with_nl_last _ Hne) by (rewrite Hl; exact Hnl2).
+    rewrite <- !app_assoc. reflexivity. }
+  rewrite Een. rewrite <- EA.
+  replace (l1 ++ NL :: repeat NL b ++ repeat SP k ++ l2 ++ [NL]) with (l1 ++ NL :: repeat NL b ++ (repeat SP k ++ l2) ++ [NL]) by (rewrite <- !app_assoc; reflexivity).
+  rewrite (split_on_app_line NL l1 _ Hn1), split_on_blanks, split_on_app_sep.
+  rewrite (split_on_none NL (repeat SP k ++ l2)) by exact Hnl_sp.
+  cbn [app process].
+  assert (Esp1 : span_sp l1 = (0%nat, l1)) by (rewrite E1; cbn [span_sp]; rewrite (Hsp_ws _ Hf1); reflexivity).
+  assert (Esp2 : span_sp (repeat SP k ++ l2) = (k, l2)) by (apply span_sp_repeat; rewrite E2; apply Hsp_ws; exact Hf2).
+  rewrite Esp1. clear Ex Es Est Een Esp1.
+  destruct l1 as [|x1 y1]; [exfalso; apply Hne1; reflexivity|]. cbv iota.
+  change (handle (Z.of_nat 0) [(-1)%Z]) with (Some ([MInd], [0%Z; (-1)%Z])). cbv iota.
+  rewrite process_blanks. cbn [process]. rewrite Esp2.
+  destruct l2 as [|x2 y2]; [exfalso; apply Hne2; reflexivity|]. cbv iota.
+  assert (Eh : handle (Z.of_nat k) [0%Z; (-1)%Z] = Some ([MInd], [Z.of_nat k; 0%Z; (-1)%Z])).
+  { unfold handle. destruct (Z.eqb_spec (Z.of_nat k) 0) as [E|_]; [lia|]. destruct (Z.gtb_spec (Z.of_nat k) 0) as [_|E]; [reflexivity|lia]. }
+  rewrite Eh. cbv iota. cbn [span_sp map marker_line marker_char app length].
+  change (seq 0 (3 - 1)) with [0%nat; 1%nat]. cbn [flat_map app].
+  unfold marker_line, marker_char.
+  assert (J : join_on NL ([INDENT_C] :: (x1 :: y1) :: repeat [] b ++ [[INDENT_C]; x2 :: y2; []])
+              = INDENT_C :: NL :: (x1 :: y1) ++ NL :: repeat NL b ++ INDENT_C :: NL :: (x2 :: y2) ++ [NL]).
+  { change (join_on NL ([INDENT_C] :: (x1 :: y1) :: repeat [] b ++ [[INDENT_C]; x2 :: y2; []]))
+      with ([INDENT_C] ++ NL :: join_on NL ((x1 :: y1) :: repeat [] b ++ [[INDENT_C]; x2 :: y2; []])).
+    cbn [app]. f_equal. f_equal.
+    assert (J2 : join_on NL ((x1 :: y1) :: repeat [] b ++ [[INDENT_C]; x2 :: y2; []])
+                 = (x1 :: y1) ++ NL :: join_on NL (repeat [] b ++ [[INDENT_C]; x2 :: y2; []])).
+    { destruct (repeat [] b ++ [[INDENT_C]; x2 :: y2; []]) eqn:E; [apply app_eq_nil in E as [_ E]; discriminate|reflexivity]. }
+    etransitivity; [exact J2|]. cbn [app]. do 3 f_equal.
+    etransitivity; [apply (join_on_blanks NL b [[INDENT_C]; x2 :: y2; []]); discriminate|]. reflexivity. }
+  match goal with |- Some (slice_both 2 (?X ++ _)) = _ => replace X with (INDENT_C :: NL :: (x1 :: y1) ++ NL :: repeat NL b ++ INDENT_C :: NL :: (x2 :: y2) ++ [NL]) by (symmetry; exact J) end.
+  match goal with |- Some (slice_both 2 ?X) = _ =>
+    replace X with ([INDENT_C; NL] ++ ((x1 :: y1) ++ NL :: repeat NL b ++ INDENT_C :: NL :: (x2 :: y2) ++ NL :: DEDENT_C :: [NL]) ++ [DEDENT_C; NL])
+      by (cbn [app]; rewrite <- !app_assoc; cbn [app]; rewrite <- !app_assoc; cbn [app]; rewrite <- !app_assoc; reflexivity) end.
+  rewrite slice_both_2. reflexivity.
+Qed.
+
 (* ---------- the XML builder on the hier node ---------- *)
 Definition txs (ds : list dnode) : list xml := map (fun d => Tx (dval d)) ds.
 
@@ -296,7 +397,7 @@ Proof.
     constructor; [unfold EscapeLossless.BS, NL; discriminate|]. constructor; [exact Hc|apply IH; exact Hr].
 Qed.
 
-Theorem hier_element_converts_units uri prefix kw n uh ut k root_meta att_meta :
+Theorem hier_element_converts_units_b uri prefix kw n uh ut k b root_meta att_meta :
   assoc_str uri meta_templates = Some (root_meta, att_meta) ->
   In kw hier_keywords ->
   num_ok n -> Forall (fun c => c <> TAB) n -> clean_num n <> [] -> valid_text n = true ->
@@ -306,7 +407,7 @@ Theorem hier_element_converts_units uri prefix kw n uh ut k root_meta att_meta :
   (1 <= k)%nat ->
   let tag := hier_name kw in
   let cand := candidate prefix tag (clean_num n) in
-  convert uri (of_string "hier_element") prefix (kw ++ 32 :: n ++ 32 :: 45 :: 32 :: encode uh ++ NL :: repeat SP k ++ encode ut ++ [NL])
+  convert uri (of_string "hier_element") prefix (kw ++ 32 :: n ++ 32 :: 45 :: 32 :: encode uh ++ NL :: repeat NL b ++ repeat SP k ++ encode ut ++ [NL])
   = OkR (hier_x tag [(EID, cand)] [(EID, cand ++ DUSCORE ++ P1)] n (decode uh) (decode ut)).
 Proof.
   intros Hm Hkw Hn Hnt Hcn Hvn (Uh & Hhtab & Hhedge & Hvh) (Ut & Httab & Htedge & Hvt) L HbL HpL HsL Hctl Hk tag cand.
@@ -335,19 +436,19 @@ Proof.
     replace (k0 :: kr ++ 32 :: n ++ 32 :: 45 :: 32 :: h) with (((k0 :: kr) ++ 32 :: n ++ [32; 45; 32]) ++ h) by (cbn [app]; rewrite <- !app_assoc; cbn [app]; rewrite <- !app_assoc; reflexivity).
     rewrite (last_app_ne _ h Hhne'). destruct h as [|h0 hr]; [contradiction|]. cbn [edge_ok] in Hhedge. apply Hhedge. }
   unfold convert, parse_text.
-  replace (kw ++ 32 :: n ++ 32 :: 45 :: 32 :: h ++ NL :: repeat SP k ++ t ++ [NL]) with (l1 ++ NL :: repeat SP k ++ t ++ [NL])
+  replace (kw ++ 32 :: n ++ 32 :: 45 :: 32 :: h ++ NL :: repeat NL b ++ repeat SP k ++ t ++ [NL]) with (l1 ++ NL :: repeat NL b ++ repeat SP k ++ t ++ [NL])
     by (subst l1; rewrite <- !app_assoc; cbn [app]; rewrite <- !app_assoc; reflexivity).
-  rewrite (pre_parse_two_lines default_indent_size l1 t k Hl1tab Hl1nl Hl1edge Httab Htnl Htedge Hk).
+  rewrite (pre_parse_two_lines_b default_indent_size l1 t k b Hl1tab Hl1nl Hl1edge Httab Htnl Htedge Hk).
   change (resolve_root (of_string "hier_element")) with (of_string "hier_element").
   change INDENT_C with 14. change DEDENT_C with 15.
-  set (pre := l1 ++ NL :: 14 :: NL :: t ++ NL :: 15 :: [NL]).
-  assert (Epre : pre = hier_text kw n uh ut []).
+  set (pre := l1 ++ NL :: repeat NL b ++ 14 :: NL :: t ++ NL :: 15 :: [NL]).
+  assert (Epre : pre = hier_text kw n uh b ut []).
   { subst pre l1 h t. unfold hier_text. rewrite <- !app_assoc. cbn [app]. rewrite <- !app_assoc. reflexivity. }
   unfold parse. replace (default_fuel pre) with (40 + (960 + 16 * length pre))%nat by (unfold default_fuel; lia).
   set (F := (960 + 16 * length pre)%nat).
-  set (o5' := len_N [] + len_N kw + 1 + len_N n + 3 + len_N (encode uh) + 1 + 2 + len_N (encode ut) + 1).
+  set (o5' := len_N [] + len_N kw + 1 + len_N n + 3 + len_N (encode uh) + 1 + N.of_nat b + 2 + len_N (encode ut) + 1).
   destruct (dedent_last (25 + F) o5') as (td & Ed).
-  destruct (hier_element_yields_hier_node F (2 * S (length pre) + 47) [] kw n uh ut [] [] (o5' + 2) td Hkw (conj Hnok Hn0) Uh Ut)
+  destruct (hier_element_yields_hier_node F (2 * S (length pre) + 47) [] kw n uh b ut [] [] (o5' + 2) td Hkw (conj Hnok Hn0) Uh Ut)
     as (tree & hds & lds & Hrun & Hdict & Hd1 & Hc1 & Hd2 & Hc2 & Hroot).
   - fold h. destruct h as [|h0 hr]; [exact I|]. cbn [edge_ok] in Hhedge. destruct Hhedge as [Hf _]. intros ->. discriminate.
   - exact HbL.
@@ -375,6 +476,20 @@ Proof.
     + rewrite Hc1. exact Hvh.
     + rewrite Hc2. exact Hvt.
 Qed.
+
+Theorem hier_element_converts_units uri prefix kw n uh ut k root_meta att_meta :
+  assoc_str uri meta_templates = Some (root_meta, att_meta) ->
+  In kw hier_keywords ->
+  num_ok n -> Forall (fun c => c <> TAB) n -> clean_num n <> [] -> valid_text n = true ->
+  written_text uh -> written_text ut ->
+  let L := encode ut ++ NL :: 15 :: [NL] in
+  none_starts block_lits L = true -> p_safe L = true -> starts_with SUBH L = false -> no_ctl_start (encode ut) = true ->
+  (1 <= k)%nat ->
+  let tag := hier_name kw in
+  let cand := candidate prefix tag (clean_num n) in
+  convert uri (of_string "hier_element") prefix (kw ++ 32 :: n ++ 32 :: 45 :: 32 :: encode uh ++ NL :: repeat SP k ++ encode ut ++ [NL])
+  = OkR (hier_x tag [(EID, cand)] [(EID, cand ++ DUSCORE ++ P1)] n (decode uh) (decode ut)).
+Proof. intros Hm Hkw Hn Hnt Hcn Hvn Hh Ht. exact (hier_element_converts_units_b uri prefix kw n uh ut k 0 root_meta att_meta Hm Hkw Hn Hnt Hcn Hvn Hh Ht). Qed.
 
 Theorem hier_element_converts uri prefix kw n h t k root_meta att_meta :
   assoc_str uri meta_templates = Some (root_meta, att_meta) ->
